@@ -3,8 +3,12 @@
 package main
 
 import (
+	"bytes"
 	"fmt"
 	"os"
+
+	"github.com/ochinchina/sipproxy/vrt"
+	"github.com/ochinchina/sipproxy/vrt/vnet"
 	"regexp"
 	"sort"
 	"strings"
@@ -143,4 +147,139 @@ func (c *Ctx) RaceCheck(cs any) int {
 		c.Violate(r.Sig, "data-race", r.Text, cs)
 	}
 	return n
+}
+
+type vrtPoint = vrt.Point
+
+// race tiers and schedule replays of the individual checks register here
+var raceRuns = map[string]func(c *Ctx){}
+var schedReplays = map[string]func(cs SchedCase) string{}
+
+// reactive doubles (managed goroutines of the harness): they answer every request they receive,
+// copying the Via stack; they touch only driver-side sockets and local data.
+
+func c09UDPBackend(addr string) { c09UDPBackendCodes(addr, []int{200}) }
+
+func c09UDPBackendCodes(addr string, codes []int) {
+	a, _ := vnet.ResolveUDPAddr("udp", addr)
+	vnet.Fab.DriverMode = true
+	c, err := vnet.ListenUDP("udp", a)
+	vnet.Fab.DriverMode = false
+	if err != nil {
+		panic(err)
+	}
+	vrt.Go(func() {
+		buf := make([]byte, 65536)
+		for {
+			n, _, err := c.ReadFromUDP(buf)
+			if err != nil {
+				return
+			}
+			m, err := ReadWire(buf[:n])
+			if err != nil || !m.IsRequest() {
+				continue
+			}
+			vs, _ := m.ViaStack()
+			if len(vs) == 0 {
+				continue
+			}
+			port := vs[0].Port
+			if port == "" {
+				port = "5060"
+			}
+			to, _ := vnet.ResolveUDPAddr("udp", vs[0].Host+":"+port)
+			for _, code := range codes {
+				c.WriteToUDP(ResponseTo(m, code, "be").Render(), to)
+			}
+		}
+	})
+}
+
+func c09TCPBackend(addr string) {
+	a, _ := vnet.ResolveTCPAddr("tcp", addr)
+	vnet.Fab.DriverMode = true
+	l, err := vnet.ListenTCP("tcp", a)
+	vnet.Fab.DriverMode = false
+	if err != nil {
+		panic(err)
+	}
+	vrt.Go(func() {
+		for {
+			conn, err := l.AcceptTCP()
+			if err != nil {
+				return
+			}
+			vrt.Go(func() {
+				var acc []byte
+				buf := make([]byte, 65536)
+				for {
+					n, err := conn.Read(buf)
+					if err != nil {
+						return
+					}
+					acc = append(acc, buf[:n]...)
+					for {
+						i := bytes.Index(acc, []byte("\r\n\r\n"))
+						if i < 0 {
+							break
+						}
+						m, err := ReadWire(acc[:i+4])
+						acc = acc[i+4:]
+						if err == nil && m.IsRequest() {
+							conn.Write(ResponseTo(m, 200, "be").Render())
+						}
+					}
+				}
+			})
+		}
+	})
+}
+
+// SchedCase is the replayable description of one explored execution.
+type SchedCase struct {
+	Scenario string `json:"scenario"`
+	Choices  []int  `json:"choices"`
+}
+
+// SchedResult is what one execution of a schedule scenario reports.
+type SchedResult struct {
+	Trace   []vrtPoint
+	Clause  string
+	Detail  string
+	Outcome string
+}
+
+// ExploreSchedules runs the deviation-bounded schedule search of one scenario (race tier): every
+// execution is checked by the scenario's oracle and by the race detector.
+func ExploreSchedules(c *Ctx, scenario string, bound int, exec func(prefix []int) SchedResult) {
+	n, done := ExploreChoices(c, bound, func(prefix []int) []vrtPoint {
+		r := exec(prefix)
+		cs := SchedCase{scenario, prefix}
+		c.Res.Evaluations++
+		c.Res.Executions++
+		c.Res.Transitions += int64(len(r.Trace))
+		if len(prefix) > 0 {
+			c.Res.Nontrivial++
+		}
+		if c.Res.Executions%400 == 1 {
+			c.Sample(cs)
+		}
+		if r.Clause != "" {
+			c.Violate(r.Clause+"|"+scenario, r.Clause, fmt.Sprintf("scenario %s, schedule %v:\n%s", scenario, prefix, r.Detail), cs)
+		} else {
+			c.Outcome(scenario + ": " + r.Outcome)
+		}
+		c.RaceCheck(cs)
+		return r.Trace
+	})
+	c.Res.States += n
+	c.Count("schedules_"+scenario, n)
+	if done {
+		c.Count(fmt.Sprintf("deviation_bound_completed_%s", scenario), int64(bound))
+		if bound > c.Res.MaxDev {
+			c.Res.MaxDev = bound
+		}
+	} else {
+		c.Cap(fmt.Sprintf("schedule search of %s with %d deviations stopped by the internal deadline", scenario, bound))
+	}
 }
